@@ -801,6 +801,34 @@ func genCorpus() {
 		}
 	}
 
+	// --- -autoname with prefix and prefix_ taken: the made-up name continues with the first LETTER of the type name, which is
+	// not one byte for Ärger, Ünit, 世界 (three calls of one name, or a user function named prefix_)
+	for _, tn := range []string{"Ärger", "Ünit", "世界", "Éa", "Plain"} {
+		for _, imp := range []string{"import (\n\t\"fmt\"\n\t\"strings\"\n)\n", "import \"fmt\"\n", ""} {
+			for _, how := range []string{"three-calls", "user-function"} {
+				use := "var _ = fmt.Sprint\n"
+				if strings.Contains(imp, "strings") {
+					use += "\nvar _ = strings.ToUpper\n"
+				}
+				if imp == "" {
+					use = ""
+				}
+				src := "// Package PKG: names that do not start with an ASCII letter.\npackage PKG\n\n" + imp + "\n" + use + "\ntype " + tn + " struct {\n\tA int\n\tB string\n}\n\ntype S struct{ L []int }\n\n" +
+					"func One(a, b *S) bool { return deriveEqual(a, b) } // keeps its name\n\n"
+				if how == "three-calls" {
+					src += "func Two(a, b []int) bool { return deriveEqual(a, b) } // renamed first\n\n"
+				} else {
+					src += "// deriveEqual_ is the user's own.\nfunc deriveEqual_() {}\n\nfunc callIt() { deriveEqual_() }\n\n"
+				}
+				src += "// Three compares values of the named type.\nfunc Three(a, b " + tn + ") bool {\n\treturn deriveEqual(a, b) // renamed to a name made from the type's first letter\n}\n\n// Tail must survive.\nfunc Tail() string { return \"tail\" }\n"
+				files := map[string]string{"u.go": src}
+				modes := bystanders(files)
+				add(caseT{Kind: "rename", What: fmt.Sprintf("-autoname makes up a name from the first letter of type %s (%s, imports: %q)", tn, how, strings.ReplaceAll(imp, "\n", " ")),
+					Renames: "autoname", Length: "longer", Gofmt: false}, files, modes)
+			}
+		}
+	}
+
 	// --- percent signs anywhere in a rewritten file (the text must never pass through a format string)
 	{
 		pct := "package PKG\n\nimport \"fmt\"\n" + types2 +
